@@ -357,9 +357,14 @@ func cmdCheck(args []string) int {
 		"wall_s":      round2(time.Since(t0).Seconds()),
 		"violations":  len(violations),
 	}
-	os.MkdirAll(filepath.Join(verifRoot(), "evidence"), 0o755)
+	evDir := filepath.Join(verifRoot(), "evidence")
+	if r := os.Getenv("GOVC_REPO"); r != "" && r != "/repo" {
+		// a run against another tree (a seeded change in a scratch worktree) must not overwrite the evidence of /repo
+		evDir = filepath.Join(verifRoot(), ".work", "evidence-other-tree")
+	}
+	os.MkdirAll(evDir, 0o755)
 	data, _ := json.MarshalIndent(ev, "", " ")
-	os.WriteFile(filepath.Join(verifRoot(), "evidence", pd.ID+".json"), append(data, '\n'), 0o644)
+	os.WriteFile(filepath.Join(evDir, pd.ID+".json"), append(data, '\n'), 0o644)
 
 	for _, l := range knownLines {
 		fmt.Println(l)
